@@ -17,6 +17,7 @@ PARALLEL = 8
 SHARD = 40
 RULE = ("random DCOPs of 1-6 variables (domains of 1-3 integer values), binary/ternary/unary constraints, duplicate "
         "scopes, isolated variables, own-cost variables in 0/30/60% of the variables, min/max, stop_cycle 2-7, mgm "
+        "(break_mode lexic or, 40%, random: identical on the code as it is, whose test compares with the module) "
         "or mgm2 (threshold 0-1, three favor modes); real computations under seeded FIFO schedules from 6 policies, "
         "85% run to quiescence; all algorithm randomness replaced by a logged oracle. The oracle recomputes the "
         "global cost / the per-variable best responses at every cycle boundary of the real run. ~12% of the "
